@@ -83,6 +83,8 @@ def g_prec():
     G.append(ex('p_expl', (1, 'ltor'), (2, 'ltor'), extra_rules=[('E', ['E', '-', 'E'], {'prec': 3})], extra_terms=[T('-', 0, 'none')]))
     G.append(Grammar('p_perm', ['P', 'S'], [T('i', 2, 'none'), T('e', 1, 'none'), T('x')], 'P', [('S', ['i', 'S', 'e', 'S']), ('S', ['i', 'S']), ('S', ['x']), ('P', ['S'], {'f': 'default'})],
                      note='dangling else with precedences (reduce preferred), rules NOT listed in nterms order: rule numbers differ from sorted positions'))
+    G.append(Grammar('p_perm2', ['P', 'S'], [T('i', 1, 'none'), T('e', 2, 'none'), T('x')], 'P', [('S', ['i', 'S', 'e', 'S']), ('S', ['i', 'S']), ('S', ['x']), ('P', ['S'], {'f': 'default'})],
+                     note='same permuted rule order, SHIFT preferred, the shift item listed before the reduce item: the conflict record of the shift-first branch'))
     G.append(Grammar('p_else', ['S'], [T('i'), T('e', 1, 'rtol'), T('x')], 'S', [('S', ['x']), ('S', ['i', 'S']), ('S', ['i', 'S', 'e', 'S'])], note='dangling else, shift preferred'))
     return G
 
@@ -142,6 +144,7 @@ def t_sets():
         g_lex('num', [RE('[0-9]+', 'num'), CH('.'), RE('[a-z]', 'letter')], 'numbers and single letters'),
         g_lex('abcd', [ST('ab'), ST('abcd'), CH('c')], 'longest match needs back-off: abc must lex as ab c'),
         g_lex('nlterm', [RE('[a\\x0a]+', 'anl'), CH('b')], 'a term whose lexeme may contain newlines'),
+        g_lex('idext', [RE('[a-z]+', 'id'), ST('ab-')], 'a later-listed term that runs through an earlier term\'s loop state and then leaves its alphabet: merging into a self-looping state'),
         g_lex('hi', [RE('[\\x80-\\xff]+', 'hi'), CH('a'), RE('\\x00', 'nul')], 'bytes >= 0x80 and NUL as term characters'),
     ]
 
